@@ -1,10 +1,15 @@
 import SJ.Proofs.Machine
+import SJ.Proofs.Utf8Machine
+import SJ.Proofs.Utf8Value
+import SJ.Proofs.NumFuel
+import SJ.Proofs.Sound.Num
 /-!
 # C14 — hostile input cannot crash, overflow the stack or corrupt memory (the logical part)
 
 In the model every Rust panic site / `unreachable!` is an explicit fallback outcome; the theorems
 show the fallbacks are never taken and the recursion depth (= height of the explicit stack) is
-bounded. Termination is by construction (`run` is a structural fold over the input). Memory safety
+bounded, and that the strings handed to `str::from_utf8_unchecked` by the `&str` source are valid UTF-8
+(`c14_utf8`, `c14_utf8_at_closing_quote`). Termination is by construction (`run` is a structural fold over the input). Memory safety
 of the compiled `unsafe` blocks and real stack consumption live in the runtime and are outside any
 model (DESIGN.md §9): partial by nature.
 -/
@@ -173,5 +178,120 @@ theorem c14_limit_hit (env : Env) (henv : env.tgt = .value) (hl : env.cfg.limitO
   · unfold step1
     rw [hm]
     simp [isWs, Gen.wsBytes, startValue, isDigit, depthExceeded, henv, hl, hd, h128]
+
+/-! ## the `str::from_utf8_unchecked` sites of the `&str` source have their precondition -/
+
+/-- **C14 (UTF-8).** Every string and every object key inside a value the parser returns is valid
+    UTF-8 (`JV.stringsValid`): on byte sources because `as_str` checks each decoded string, on the
+    `&str` source — where `StrRead::parse_str` calls `str::from_utf8_unchecked` instead — because the
+    input is valid UTF-8 and escape-decoding a valid UTF-8 literal yields valid UTF-8
+    (`Proofs.Utf8.decodeItems_utf8`, `jsontext_utf8`). The hypothesis on `bs` is what the type `&str`
+    guarantees. -/
+theorem c14_utf8 (env : Env) (bs : Bytes) (v : JV) (h : parseTop env bs = .ok v)
+    (hstr : env.src = .str → Spec.Utf8.validUtf8 bs = true) : v.stringsValid = true :=
+  SJ.Proofs.Utf8.parse_stringsValid env bs v h hstr
+
+/-- `{"é😀":["é😀"]}` from a `&str`: the key (raw bytes) and the string (escapes,
+    one of them a surrogate pair) are valid UTF-8 -/
+def exUtf8 : Bytes :=
+  [0x7b, 0x22, 0xc3, 0xa9, 0xf0, 0x9f, 0x98, 0x80, 0x22, 0x3a, 0x5b, 0x22, 0x5c, 0x75, 0x30, 0x30, 0x65, 0x39, 0x5c, 0x75,
+   0x64, 0x38, 0x33, 0x64, 0x5c, 0x75, 0x64, 0x65, 0x30, 0x30, 0x22, 0x5d, 0x7d]
+example : parseTop ⟨{}, .str, .value⟩ exUtf8 =
+    .ok (.obj [([0xc3, 0xa9, 0xf0, 0x9f, 0x98, 0x80], .arr [.str [0xc3, 0xa9, 0xf0, 0x9f, 0x98, 0x80]])]) := rfl
+example : (JV.obj [([0xc3, 0xa9, 0xf0, 0x9f, 0x98, 0x80], .arr [.str [0xc3, 0xa9, 0xf0, 0x9f, 0x98, 0x80]])]).stringsValid
+    = true :=
+  c14_utf8 ⟨{}, .str, .value⟩ exUtf8 _ rfl (fun _ => by decide +kernel)
+/-- the hypothesis is needed (and is exactly the `&str` type invariant): fed bytes that are not
+    UTF-8, the model of the `&str` source returns them unchecked -/
+example : parseTop ⟨{}, .str, .value⟩ [0x22, 0xff, 0x22] = .ok (.str [0xff]) ∧
+    (JV.str [0xff]).stringsValid = false := ⟨rfl, by decide +kernel⟩
+
+/-- **C14 (UTF-8, per call site).** The same at the level of the individual call: on valid UTF-8
+    input, *whenever* the parser stands at the closing quote of a string literal — a value or an object
+    key, for either target, also in a document that is rejected further on — the decoded text it is about
+    to hand to `str::from_utf8_unchecked` (`&str` source, `Reference::Borrowed` and `Copied` alike:
+    `out` is the input slice itself when the literal has no escape) is valid UTF-8. -/
+theorem c14_utf8_at_closing_quote (env : Env) (pre rest : Bytes)
+    (h : Spec.Utf8.validUtf8 (pre ++ 0x22 :: rest) = true)
+    (s : St) (j : Nat) (hf : feed env init 0 pre = .ok (s, j)) (st : StrSt) (hm : s.mode = .str st)
+    (he : st.esc = .none) : Spec.Utf8.validUtf8 st.out.reverse = true :=
+  SJ.Proofs.Utf8.utf8_at_closing_quote env pre rest h s j hf st hm he
+
+/-- `["é😀` then `"x` (the document is rejected afterwards): at the quote, `out` is `é😀` -/
+example : feed ⟨{}, .str, .value⟩ init 0 [0x5b, 0x22, 0xc3, 0xa9, 0xf0, 0x9f, 0x98, 0x80] =
+    .ok ({ mode := .str { out := [0x80, 0x98, 0x9f, 0xf0, 0xa9, 0xc3] }, stack := [.arr []] }, 8) := rfl
+example : Spec.Utf8.validUtf8 [0xc3, 0xa9, 0xf0, 0x9f, 0x98, 0x80] = true :=
+  c14_utf8_at_closing_quote ⟨{}, .str, .value⟩ [0x5b, 0x22, 0xc3, 0xa9, 0xf0, 0x9f, 0x98, 0x80] [0x78]
+    (by decide +kernel) _ 8 rfl _ rfl rfl
+/-! ## The number conversion never runs out of fuel
+
+`f64_from_parts` loops (`f /= 1e308; exponent += 308`); the model transcribes the loop with explicit
+fuel `|exponent| / 308 + 3` (`308` = `Gen.fromPartsStep`, re-extracted) and an `outOfFuel` result that `numValue` would report as
+`NumberOutOfRange`. It is unreachable. -/
+
+/-- **C14 (fuel).** For all parts the machine's scanner can produce (`PartsWF`: ASCII digits, integer
+    part `0` or without leading zero, non-empty fraction / exponent digits when present), the default
+    conversion never returns `outOfFuel`. -/
+theorem c14_no_fuel (p : Model.Num.Parts) (hwf : SJ.Proofs.NumLink.PartsWF p) :
+    Model.Num.convertDefault p ≠ .outOfFuel :=
+  SJ.Proofs.NumLink.convertDefault_ne_outOfFuel p hwf
+
+/-- the `f64_from_parts` transcription itself, for every significand and every exponent -/
+theorem c14_no_fuel_f64_from_parts (positive : Bool) (s : Nat) (e : Int) :
+    Model.Num.f64FromParts positive s e ≠ .outOfFuel :=
+  SJ.Proofs.NumLink.f64FromParts_ne_outOfFuel positive s e
+
+/-- the `float_roundtrip` conversion has no fuelled loop at all -/
+theorem c14_no_fuel_roundtrip (p : Model.Num.Parts) : Model.Num.convertRoundtrip p ≠ .outOfFuel := by
+  have hex : ∀ a b c, Model.Num.exponentOverflow a b c ≠ .outOfFuel := by
+    intro a b c; unfold Model.Num.exponentOverflow; split <;> (intro h; cases h)
+  have hconv : Model.Num.convertRoundtrip.conv p ≠ .outOfFuel := by
+    unfold Model.Num.convertRoundtrip.conv
+    cases Model.Num.exact p with
+    | zero => intro h; cases h
+    | tiny => intro h; cases h
+    | huge => intro h; cases h
+    | rat n d =>
+      simp only
+      cases (if d == 0 then none else Spec.Ieee.roundNE64 p.neg n d) <;> (intro h; cases h)
+  unfold Model.Num.convertRoundtrip
+  cases hi : Model.Num.intClass p with
+  | some r =>
+    simp only
+    intro h; subst h
+    simp only [Model.Num.intClass] at hi
+    repeat' split at hi
+    all_goals simp at hi
+  | none =>
+    simp only
+    split
+    · split
+      · exact hex _ _ _
+      · exact hconv
+    · exact hconv
+
+/-- **C14 (fuel), at the machine.** Whenever the machine ends a number (`endNumber` → `numValue`) in a
+    state satisfying the scanner invariant of the soundness proof (`NumInv`, preserved by every step:
+    `Proofs.Sound.stepNum_next`) in a phase where a number may end, neither conversion is out of fuel:
+    the `outOfFuel` arm of `numValue` is dead code. -/
+theorem c14_no_fuel_machine (n : NumSt) (hi : SJ.Proofs.Sound.NumInv n)
+    (hf : SJ.Proofs.Sound.FinalPhase n.phase) :
+    Model.Num.convertDefault n.parts ≠ .outOfFuel ∧ Model.Num.convertRoundtrip n.parts ≠ .outOfFuel := by
+  obtain ⟨p, hwf, _, hp⟩ := SJ.Proofs.Sound.numInv_final n hi hf
+  rw [← hp]
+  exact ⟨c14_no_fuel _ (SJ.Proofs.NumLinkParser.partsOf_wf p hwf), c14_no_fuel_roundtrip _⟩
+
+/-- every RFC 8259 number literal, as scanned -/
+theorem c14_no_fuel_literal (p : Spec.Grammar.NumParts) (hwf : p.WF = true) :
+    Model.Num.convertDefault (Spec.Canon.partsOf p) ≠ .outOfFuel :=
+  c14_no_fuel _ (SJ.Proofs.NumLinkParser.partsOf_wf p hwf)
+
+/-- non-vacuity: `1e-99999` gets fuel 327 and ends in `+0.0` in the third round (`f` has become `0`);
+    two rounds would not have been enough -/
+example : Model.Num.f64FromParts true 1 (-99999) = .ok 0 := by decide +kernel
+example : Model.Num.f64FromPartsLoop 2 (Spec.Ieee.F64.ofU64 1) (-99999) = .outOfFuel := by decide +kernel
+example : SJ.Proofs.NumLink.PartsWF ⟨false, [0x31], none, some (true, [0x39, 0x39, 0x39, 0x39, 0x39]),
+    [0x31, 0x65, 0x2d, 0x39, 0x39, 0x39, 0x39, 0x39]⟩ :=
+  SJ.Proofs.NumLinkParser.partsOf_wf ⟨false, [0x31], [], [0x65, 0x2d, 0x39, 0x39, 0x39, 0x39, 0x39]⟩ (by decide)
 
 end SJ.Props.C14
